@@ -288,6 +288,23 @@ func (g *coreGen) containerStmt(d int) Node {
 		if g.inRule && g.r.Intn(3) == 0 {
 			it = "$"
 		}
+		switch g.r.Intn(8) {
+		case 0:
+			// the loop variable is the iterated variable itself: the loop still visits the original elements
+			if it == "r0" || it == "r1" {
+				v1 = it
+				args[1] = map[string]any(cn("var", "n", v1))
+			}
+		case 1:
+			// the body re-assigns the iterated variable, or pushes onto it: the loop is not affected
+			if it == "r0" || it == "r1" {
+				extra := cn("expr", "e", map[string]any(cn("asg", "n", it, "op", "=", "e", map[string]any(cn("arr", "items", []any{map[string]any(g.num(9))})))))
+				if g.r.Intn(2) == 0 {
+					extra = cn("expr", "e", map[string]any(cn("mcall", "n", it, "m", "push", "args", []any{map[string]any(g.num(8))})))
+				}
+				body["b"] = append(body["b"].([]any), map[string]any(extra))
+			}
+		}
 		return cn("forin", "v1", v1, "v2", v2, "n", it, "b", map[string]any(body))
 	case 10:
 		return ex(cn("asg", "n", "pv", "op", "=", "e", map[string]any(cn("mcall", "n", g.pick("r0", "r1"), "m", "pop", "args", []any{}))))
